@@ -37,9 +37,9 @@ Definition ops_same (a b : list op) : bool := same_set op_same a b && Nat.eqb (l
 
 (* the generated server may mount one (method, pattern) twice (two endpoints on one
    route): compare the mount tables as they are *)
-Definition case_ok (c : nat * design * list op * list op * list op) : bool :=
-  match c with (_, d, srv, o3, o2) =>
-    ops_same (server_ops d) srv && ops_same (doc3_ops d) o3 && ops_same (doc2_ops d) o2 end.
+Definition case_ok (c : nat * mdesign * list op * list op * list op) : bool :=
+  match c with (_, m, srv, o3, o2) =>
+    ops_same (server_ops (mounted m)) srv && ops_same (doc3_ops (visible m)) o3 && ops_same (doc2_ops (visible m)) o2 end.
 
-Definition mismatches (cs : list (nat * design * list op * list op * list op)) : list nat :=
+Definition mismatches (cs : list (nat * mdesign * list op * list op * list op)) : list nat :=
   flat_map (fun c => if case_ok c then [] else [fst (fst (fst (fst c)))]) cs.
